@@ -3,6 +3,7 @@ C09 property theorems. Only statements of the property + non-vacuity examples li
 helper lemmas are in Lemmas.lean.
 -/
 import BV.C09.Lemmas
+import BV.C09.Lemmas2
 import BV.Generated.C09
 namespace BV.C09
 open Spec
@@ -22,6 +23,29 @@ theorem bigToCompact_compactToBig (e m : Nat) (he : 3 ≤ e) (he' : e < 256)
 example : bigToCompact (compactToBig 0x1b0404cb) = 0x1b0404cb := by
   have := bigToCompact_compactToBig 0x1b 0x0404cb (by decide) (by decide) (by decide) (by decide)
   simpa using this
+
+/-- `BigToCompact` then `CompactToBig` on any positive target of at most 254 bytes (every 256-bit target)
+    rounds down, by less than `256^(len-2)`: exactly the three most significant bytes survive
+    (two when the top bit would collide with the sign bit). -/
+theorem compactToBig_bigToCompact_trunc (a : Nat) (ha : 0 < a) (hlen : byteLen a ≤ 254) :
+    compactToBig (bigToCompact (a : Int)) ≤ (a : Int) ∧
+    (a : Int) - compactToBig (bigToCompact (a : Int)) < ((256 ^ (byteLen a - 2) : Nat) : Int) :=
+  Lemmas.c2b_b2c_trunc a ha hlen
+
+/-- every 256-bit number has at most 32 ≤ 254 bytes: the hypothesis above covers all targets -/
+theorem byteLen_le_of_lt (a : Nat) (h : a < 2 ^ 256) : byteLen a ≤ 32 := by
+  by_cases ha : a = 0
+  · subst ha; rw [Lemmas.byteLen_zero]; omega
+  · have hb := (Lemmas.byteLen_bounds a (Nat.pos_of_ne_zero ha)).1
+    by_cases hc : byteLen a ≤ 32
+    · exact hc
+    · exfalso
+      have : 256 ^ 32 ≤ 256 ^ (byteLen a - 1) := Nat.pow_le_pow_right (by decide) (by omega)
+      have e : (256 : Nat) ^ 32 = 2 ^ 256 := by decide
+      omega
+
+example : byteLen (2^224 - 1) ≤ 254 := by
+  have := byteLen_le_of_lt (2^224 - 1) (by decide); omega
 
 /-! ### work -/
 
